@@ -1,13 +1,13 @@
 #!/bin/bash
 # tools/mutant.sh <patch> <ID> [<ID>...] : apply patch to /repo, run quick checks, always revert.
 patch="$1"; shift
-cd /repo || exit 2
-if ! git diff --quiet; then echo "repo dirty"; exit 2; fi
-git apply "$patch" || { echo "patch does not apply"; exit 2; }
-trap 'git -C /repo checkout -- . ' EXIT
+scr=/var/tmp/vr/mut_$$; mkdir -p /var/tmp/vr; git -C /repo worktree add --detach $scr HEAD -q || exit 2
+
+git -C $scr apply "$patch" || { echo "patch does not apply"; git -C /repo worktree remove --force $scr; exit 2; }
+trap "git -C /repo worktree remove --force $scr; git -C /repo worktree prune" EXIT
 cd /verif
 for id in "$@"; do
-  out=$(VERIF_NO_CONFIRM=1 VERIF_BUDGET=${MUT_BUDGET:-240} ./check "$id" 2>&1)
+  out=$(VERIF_REPO=$scr VERIF_NO_CONFIRM=1 VERIF_BUDGET=${MUT_BUDGET:-240} ./check "$id" 2>&1)
   rc=$?
   echo "== $(basename $patch) $id rc=$rc"
   echo "$out" | grep -E "violation:|VIOLATION" | head -${MUT_LINES:-3}
